@@ -11911,7 +11911,7 @@ func (p *PathAttributeOrigin) DecodeFromBytes(data []byte, options ...*Marshalli
 	}
 	if p.Length != 1 {
 		eCode := uint8(BGP_ERROR_UPDATE_MESSAGE_ERROR)
-		eSubCode := uint8(BGP_ERROR_SUB_MALFORMED_ATTRIBUTE_LIST)
+		eSubCode := uint8(BGP_ERROR_SUB_ATTRIBUTE_LENGTH_ERROR)
 		return NewMessageError(eCode, eSubCode, nil, "Origin attribute length is incorrect")
 	}
 	p.Value = value[0]
